@@ -1111,6 +1111,10 @@ type seq struct {
 	docs   map[string]policy // structure of the stored policies
 	modIdx map[string]uint64
 	kind   string
+	// RPC mode: ids that were missing when a token referring to them was resolved, and whether
+	// one of them has been created since (the history shape of the sticky negative cache entry)
+	negSeen      map[string]bool
+	negRecreated string
 }
 
 func (s *seq) line(op, out string) {
@@ -1142,6 +1146,9 @@ func (s *seq) putPolicy(id string, o genOpts) {
 	doc.SetHash(true)
 	s.b.policies[id] = doc
 	s.docs[id] = p
+	if s.negSeen[id] {
+		s.negRecreated = "policy"
+	}
 	s.line(fmt.Sprintf("pol %s %d %d %s %s", hx.EncS(id), doc.ModifyIndex, tag, encDCs(dcs), encPolicy(p)), "ok")
 	if p.mixedCase() {
 		s.run.Tag(s.kind + ":policy:mixed-case")
@@ -1192,6 +1199,9 @@ func (s *seq) putRole(id string) {
 		ro.Policies = append(ro.Policies, structs.ACLRolePolicyLink{ID: p})
 	}
 	s.b.roles[id] = ro
+	if s.negSeen[id] {
+		s.negRecreated = "role"
+	}
 	s.line(fmt.Sprintf("role %s %s %s %s", hx.EncS(id), hx.EncSList(pids), es, en), "ok")
 }
 
@@ -1250,6 +1260,7 @@ func (s *seq) names() []string {
 func (s *seq) resolve(secret string) {
 	names := s.names()
 	op := fmt.Sprintf("resolve %s %s", hx.EncS(secret), hx.EncSList(names))
+	s.noteMissing(secret)
 	res, err := s.res.ResolveToken(secret)
 	fresh, ferr := newResolver(s.b, s.dflt, false).ResolveToken(secret)
 	if err != nil {
@@ -1279,11 +1290,44 @@ func (s *seq) resolve(secret string) {
 		return
 	}
 	if fd := decide(fresh, names); fd.String() != d.String() {
-		s.violate("cache:decision-differs-from-fresh:resolve",
+		sig := "cache:decision-differs-from-fresh:resolve"
+		if s.b.client && s.negRecreated != "" {
+			sig = "cache:negative-entry-never-expires:" + s.negRecreated
+		}
+		s.violate(sig,
 			fmt.Sprintf("token %s through the shared caches: %s; through a fresh resolver: %s", secret, d, fd))
 	}
 	for _, v := range checkPrefixQueries(names, d) {
 		s.violate(v.sig, v.desc)
+	}
+}
+
+// noteMissing records the policy / role ids the token refers to that do not exist right now.
+func (s *seq) noteMissing(secret string) {
+	if secret == "" {
+		secret = "anonymous"
+	}
+	t, ok := s.b.tokens[secret]
+	if !ok || !s.b.client {
+		return
+	}
+	if s.negSeen == nil {
+		s.negSeen = map[string]bool{}
+	}
+	pids := t.PolicyIDs()
+	for _, rid := range t.RoleIDs() {
+		if ro, ok := s.b.roles[rid]; ok {
+			for _, l := range ro.Policies {
+				pids = append(pids, l.ID)
+			}
+		} else {
+			s.negSeen[rid] = true
+		}
+	}
+	for _, id := range pids {
+		if _, ok := s.b.policies[id]; !ok {
+			s.negSeen[id] = true
+		}
 	}
 }
 
